@@ -379,7 +379,8 @@ class State:
                 k = ('l', 'accum*', e.ordered, e.distinct, e.dirty)      # contents joined separately (union of templates)
             elif t is ListE:
                 k = ('l', e.kind, e.lo, e.hi, skey(e.parent) if e.parent else None, e.tag,
-                     tuple([vkey(x) for x in e.items]), skey(e.src) if e.src else None, e.ordered, e.spec, e.distinct, e.dirty)
+                     tuple([vkey(x) for x in e.items]), skey(e.src) if e.src else None, e.ordered,
+                     (tuple(vkey(x) for x in e.spec) if e.kind == 'count' and e.spec else e.spec), e.distinct, e.dirty)
             elif t is ObjE:
                 k = ('o', e.cls, tuple([(a, vkey(b)) for a, b in e.fields]))
             elif t is DictE:
